@@ -1,8 +1,151 @@
 import GB.Base.Proto
+import GB.C16.Spec
 namespace GB.C16
 open GB GB.Proto
 
-/-- stub: replaced when the C16 slice is built -/
-def handle : Handler := fun _ _ => "BAD c16 unimplemented"
+/-- number of names the harness uses -/
+def nNames : Nat := 4
+
+def parseIdx (s : String) : Option Nat :=
+  match s.toNat? with
+  | some n => some n
+  | none => none
+
+def parseROp (t : String) : Option ROp :=
+  match t.toList with
+  | 'A' :: rest =>
+    match rest.reverse with
+    | m :: ds =>
+      match parseIdx (String.ofList ds.reverse), m with
+      | some n, 'o' => if n < nNames then some (.add n .ok) else none
+      | some n, 'f' => if n < nNames then some (.add n .fail) else none
+      | some n, 'p' => if n < nNames then some (.add n .opts) else none
+      | _, _ => none
+    | [] => none
+  | 'R' :: ds => (parseIdx (String.ofList ds)).bind fun n => if n < nNames then some (.remove n) else none
+  | 'G' :: ds => (parseIdx (String.ofList ds)).bind fun n => if n < nNames then some (.get n) else none
+  | 'S' :: ds => (parseIdx (String.ofList ds)).bind fun n => if n < nNames then some (.stream n) else none
+  | 'C' :: ds => (parseIdx (String.ofList ds)).bind fun n => if n < nNames then some (.call n) else none
+  | _ => none
+
+def parsePOp (t : String) : Option POp :=
+  match t.toList with
+  | 'N' :: rest =>
+    match rest.reverse with
+    | m :: ds =>
+      match parseIdx (String.ofList ds.reverse), m with
+      | some n, 'o' => if n < nNames then some (.new n true) else none
+      | some n, 'f' => if n < nNames then some (.new n false) else none
+      | _, _ => none
+    | [] => none
+  | 'K' :: ds => (parseIdx (String.ofList ds)).map .close
+  | 'G' :: ds => (parseIdx (String.ofList ds)).bind fun n => if n < nNames then some (.get n) else none
+  | 'S' :: ds => (parseIdx (String.ofList ds)).bind fun n => if n < nNames then some (.stream n) else none
+  | 'C' :: ds => (parseIdx (String.ofList ds)).bind fun n => if n < nNames then some (.call n) else none
+  | _ => none
+
+def parseAll {α : Type} (f : String → Option α) : List String → Option (List α)
+  | [] => some []
+  | t :: ts => match f t, parseAll f ts with
+    | some a, some as => some (a :: as)
+    | _, _ => none
+
+def showAddRes : AddRes → String
+  | .ok => "ok" | .dup => "dup" | .opts => "opts" | .conn => "conn" | .dialed => "dialed"
+  | .watchP => "watch" | .watchS => "watch"
+
+def showProbe : Option GetRes → String
+  | none => ""
+  | some .absent => "~a"
+  | some (.usable _) => "~u"
+  | some .nilPresent => "~n"
+
+def showRes : Res → String
+  | .add r p => showAddRes r ++ showProbe p
+  | .removed => "t:0"
+  | .notPresent => "f"
+  | .closed => "closed:0"
+  | .noSuch => "nosuch"
+  | .panic => "panic"
+  | .hang => "hang"
+  | .get .absent => "absent"
+  | .get (.usable _) => "usable"
+  | .get .nilPresent => "nil"
+  | .noHandle => "nohandle"
+  | .streamOk => "ok"
+  | .unavailable => "unavail"
+
+def showAlive (l : List Nat) : String :=
+  if l.isEmpty then "-" else ",".intercalate (l.map toString)
+
+/-- first violation found by the judge along the tokens of the real code -/
+def judgeAll {op : Type} (jf : J → op → String → Option String × J) : J → List op → List String → Nat → Option String × J
+  | j, o :: os, t :: ts, i =>
+    match jf j o t with
+    | (some v, j') => (some s!"op{i}:{v}", j')
+    | (none, j') => judgeAll jf j' os ts (i + 1)
+  | j, _, _, _ => (none, j)
+
+def judgeFinals (j : J) : List String → Option String
+  | [] => none
+  | t :: ts => match judgeFinal j nNames t with
+    | some v => some v
+    | none => judgeFinals j ts
+
+def tags (j : J) : String :=
+  let nt := j.readdFail || j.readdRemove || j.staleStream || j.inflightRemove
+  let b := if j.readdFail then "readd-after-failed-add"
+    else if j.readdRemove then "readd-after-remove"
+    else if j.inflightRemove then "remove-with-calls-in-flight"
+    else if j.staleStream then "stream-after-remove"
+    else "plain"
+  (if nt then " nt" else "") ++ " b=" ++ b
+
+def verdict (viol : Option String) (modelOut implOut : List String) (j : J) : String :=
+  match viol with
+  | some v => s!"VIOL {v} model={" ".intercalate modelOut}"
+  | none =>
+    if modelOut = implOut then "OK" ++ tags j
+    else "DIFF model=" ++ ",".intercalate modelOut
+
+/-- `rr <cfg> <op>… => <tok>… w=<n> n=<n> alive=<ids> leak=<n>`  and
+    `pool <cfg> <op>… => <tok>… alive=<ids> leak=<n>` -/
+def handle : Handler
+  | "rr" :: _cfg :: opToks, out =>
+    match parseAll parseROp opToks with
+    | none => "BAD c16 router op"
+    | some ops =>
+      let (s, rs) := runR true init ops
+      let modelOut := rs.map showRes ++
+        [s!"w={pollers s}", s!"n={targetCount s nNames}", s!"alive={showAlive (aliveCalls s)}", "leak=0"]
+      let opOut := out.take ops.length
+      let finals := out.drop ops.length
+      let (v, j) := judgeAll judgeR {} ops opOut 0
+      let v := match v with
+        | some x => some x
+        | none => if opOut.length < ops.length then some "history-not-completed" else judgeFinals j finals
+      verdict v modelOut out j
+  | "pool" :: _cfg :: opToks, out =>
+    match parseAll parsePOp opToks with
+    | none => "BAD c16 pool op"
+    | some ops =>
+      let (s, rs) := runP true init ops
+      let modelOut := rs.map showRes ++ [s!"alive={showAlive (aliveCalls s)}", "leak=0"]
+      let opOut := out.take ops.length
+      let finals := out.drop ops.length
+      let (v, j) := judgeAll judgeP {} ops opOut 0
+      let v := match v with
+        | some x => some x
+        | none => if opOut.length < ops.length then some "history-not-completed" else judgeFinals j finals
+      verdict v modelOut out j
+  | ["conc", _seed, _g, _n], out =>
+    -- concurrent use of one real pool: whatever the schedule, every count must be zero
+    -- (C16_pool_concurrent_get / _finish / _close); nothing else is compared
+    let expect := ["nil=0", "panic=0", "incons=0", "stuck=0", "leak=0"]
+    if out = expect then "OK nt b=concurrent-pool"
+    else
+      let bad := out.filter (fun t => !expect.contains t)
+      s!"VIOL concurrent-pool:{",".intercalate bad} model={" ".intercalate expect}"
+  | _, _ => "BAD c16 line"
 
 end GB.C16
